@@ -431,7 +431,6 @@ pcgssvx(int_t nprocs, superlumt_options_t *superlumt_options, SuperMatrix *A,
     equil = (superlumt_options->fact == EQUILIBRATE);
     notran = (superlumt_options->trans == NOTRANS);
     if (dofact || equil) {
-	*equed = NOEQUIL;
 	rowequ = FALSE;
 	colequ = FALSE;
     } else {
@@ -501,6 +500,7 @@ pcgssvx(int_t nprocs, superlumt_options_t *superlumt_options, SuperMatrix *A,
 	xerbla_("pcgssvx", &i);
 	return;
     }
+    if (dofact || equil) *equed = NOEQUIL; /* only once the arguments are known to be legal */
     
     
     /* ------------------------------------------------------------
